@@ -13,11 +13,12 @@ import (
 
 	"github.com/sanonone/kektordb/internal/verifkit"
 	"github.com/sanonone/kektordb/pkg/core/distance"
+	"github.com/sanonone/kektordb/pkg/core/types"
 	"github.com/sanonone/kektordb/pkg/engine"
 	"pgregory.net/rapid"
 )
 
-const c08Rule = "rapid-generated cases = history over one index (8 ids, dim 3): VAdd with metadata / VSetMetadata merges (same-type and type-changing overwrites over strings, JSON numbers, booleans, lists of strings) / VDelete / re-add / vacuum, interleaved with SaveSnapshot, RewriteAOF, VCompress, Close+Open and closed by one of 7 tails (none; restart; snapshot+restart; rewrite+restart; compress; compress+restart; all of them in a row) x 2-4 filter ASTs (OR of AND-blocks of `key op literal`, op in = != < <= > >=, mixed-case keywords, quoted/unquoted literals, alternative number spellings) rendered to text. After EVERY step every filter is sent to VFilter (limit 1000) and to VSearch (k=64) and compared with an independent evaluator of the documented semantics over the model's current metadata (exact id set; VSearch: subset); steps that do not change metadata (vacuum, snapshot, rewrite, compress, restart) must leave every answer unchanged. NON-TRIVIAL = some filter with >= 2 clauses has, at some step, a truth set that is neither empty nor all live ids."
+const c08Rule = "rapid-generated cases = history over one index (8 ids + 6 batch-only ids + warm-up ids, dim 3): VAdd with metadata / VSetMetadata merges (same-type and type-changing overwrites over strings, JSON numbers, booleans, lists of strings) / VDelete / re-add / vacuum / VAddBatch and VImport(+SaveSnapshot) of 1-5 items (non-live ids, some items without metadata; index with ef_construction 200, or 8 with an optional warm-up of 9 or 41 single adds so that batches / imports take the parallel insert path of the graph), interleaved with SaveSnapshot, RewriteAOF, VCompress, Close+Open and closed by one of 7 tails (none; restart; snapshot+restart; rewrite+restart; compress; compress+restart; all of them in a row) x 2-4 filter ASTs (OR of AND-blocks of `key op literal`, op in = != < <= > >=, mixed-case keywords, quoted/unquoted literals, alternative number spellings) rendered to text. After EVERY step every filter is sent to VFilter (limit 1000) and to VSearch (k=64) and compared with an independent evaluator of the documented semantics over the model's current metadata (exact id set; VSearch: subset); steps that do not change metadata (vacuum, snapshot, rewrite, compress, restart) must leave every answer unchanged. NON-TRIVIAL = some filter with >= 2 clauses has, at some step, a truth set that is neither empty nor all live ids."
 
 type c08Stats struct {
 	Labels     map[string]bool
@@ -36,6 +37,24 @@ func c08Plan(c c08Case) c08Stats {
 	base := "log" // what a restart would load: "log" (pure replay), "snapshot" (+ log tail), "rewrite" (compacted log)
 	delSinceVacuum := false
 	tail := false // metadata changed since the base (snapshot / compacted log) was written
+	// handed: lower bound of the internal ids the index object has handed out (a rebuilt index - restart,
+	// compress - holds at least the live vectors); batches at or above the threshold take the parallel path
+	handed := 0
+	hasNeq, hasNeqInAnd, hasNeqInOr := false, false, false
+	for _, f := range c.Filters {
+		for _, b := range f.Blocks {
+			for _, cl := range b {
+				if cl.Op == "!=" {
+					hasNeq = true
+					hasNeqInAnd = hasNeqInAnd || len(b) > 1
+					hasNeqInOr = hasNeqInOr || len(f.Blocks) > 1
+				}
+			}
+		}
+	}
+	if c.EfC > 0 {
+		st.l(fmt.Sprintf("index:efC=%d", c.EfC))
+	}
 	check := func() {
 		for _, f := range c.Filters {
 			must, may := c08Expect(m, f)
@@ -60,6 +79,43 @@ func c08Plan(c c08Case) c08Stats {
 			if len(op.Meta) == 0 {
 				st.l("add-without-metadata")
 			}
+			if op.Quiet {
+				st.l("warm-up-adds")
+			}
+			handed++
+		case "batch", "import":
+			thr, name := c.efC(), "batch"
+			if op.K == "import" {
+				thr, name = c08ImportThreshold, "import"
+				base, tail = "snapshot", false
+			}
+			st.l("op:" + name)
+			path := ":one-by-one-path"
+			if handed >= thr {
+				path = ":parallel-path"
+			}
+			st.l(name + path)
+			if len(op.Items) >= 2 {
+				st.l(name + path + ":2+items")
+				if hasNeq {
+					st.l(name + path + ":2+items:case-has-!=")
+				}
+				if hasNeqInAnd {
+					st.l(name + path + ":2+items:case-has-!=-inside-AND")
+				}
+				if hasNeqInOr {
+					st.l(name + path + ":2+items:case-has-!=-inside-OR")
+				}
+			}
+			for _, it := range op.Items {
+				if deleted[it.ID] {
+					st.l(name + ":re-add-of-deleted-id")
+				}
+				if len(it.Meta) == 0 {
+					st.l(name + ":item-without-metadata")
+				}
+			}
+			handed += len(op.Items)
 		case "set":
 			old := m.Live[op.ID]
 			for k, v := range op.Meta {
@@ -99,14 +155,19 @@ func c08Plan(c c08Case) c08Stats {
 				st.l("way:restart-from-" + base + "+log-tail")
 			}
 		}
-		if op.K == "add" || op.K == "set" || op.K == "del" {
+		if op.K == "add" || op.K == "set" || op.K == "del" || op.K == "batch" {
 			tail = true
 		}
 		m.apply(op)
+		if op.K == "restart" || op.K == "compress" {
+			handed = len(m.Live)
+		}
 		if m.hasList() {
 			st.l("has-list-values")
 		}
-		check()
+		if !op.Quiet {
+			check()
+		}
 	}
 	for _, f := range c.Filters {
 		if len(f.Blocks) > 1 {
@@ -187,7 +248,7 @@ func c08Run(c c08Case, seed int64) (msg string, goIntDiff bool) {
 			msg = fmt.Sprintf("panic while executing the case: %v\n%s", p, trimStack(debug.Stack()))
 		}
 	}()
-	if err := e.VCreate(c08Index, distance.Euclidean, 16, 200, distance.Float32, "", nil, nil, nil); err != nil {
+	if err := e.VCreate(c08Index, distance.Euclidean, c08M, c.efC(), distance.Float32, "", nil, nil, nil); err != nil {
 		return "harness: VCreate: " + err.Error(), false
 	}
 
@@ -263,6 +324,9 @@ func c08Run(c c08Case, seed int64) (msg string, goIntDiff bool) {
 		if op.Meta != nil {
 			step += " " + c08JSON(op.Meta)
 		}
+		if op.Items != nil {
+			step += " " + c08ItemsText(op.Items)
+		}
 		var err error
 		switch op.K {
 		case "add":
@@ -271,6 +335,12 @@ func c08Run(c c08Case, seed int64) (msg string, goIntDiff bool) {
 			err = e.VSetMetadata(c08Index, op.ID, c08EngineMeta(op.Meta, c.GoInt))
 		case "del":
 			err = e.VDelete(c08Index, op.ID)
+		case "batch":
+			err = e.VAddBatch(c08Index, c08Batch(op.Items, c.GoInt))
+		case "import":
+			if err = e.VImport(c08Index, c08Batch(op.Items, c.GoInt)); err == nil {
+				err = e.SaveSnapshot() // what VImportCommit does synchronously
+			}
 		case "vacuum":
 			err = e.VTriggerMaintenance(c08Index, "vacuum")
 		case "snapshot":
@@ -295,6 +365,9 @@ func c08Run(c c08Case, seed int64) (msg string, goIntDiff bool) {
 		}
 		m.apply(op)
 		trace = append(trace, step)
+		if op.Quiet {
+			continue
+		}
 		if vm := check(step); vm != "" {
 			if c.GoInt {
 				return "", true // outside the JSON-typed domain: reported, not asserted
@@ -303,6 +376,26 @@ func c08Run(c c08Case, seed int64) (msg string, goIntDiff bool) {
 		}
 	}
 	return "", false
+}
+
+// c08Batch converts items to what VAddBatch / VImport take; an item without metadata carries a nil map.
+func c08Batch(items []c08Item, goInt bool) []types.BatchObject {
+	out := make([]types.BatchObject, len(items))
+	for i, it := range items {
+		out[i] = types.BatchObject{Id: it.ID, Vector: append([]float32(nil), it.Vec...)}
+		if len(it.Meta) > 0 {
+			out[i].Metadata = c08EngineMeta(it.Meta, goInt)
+		}
+	}
+	return out
+}
+
+func c08ItemsText(items []c08Item) string {
+	var parts []string
+	for _, it := range items {
+		parts = append(parts, it.ID+":"+c08JSON(it.Meta))
+	}
+	return "[" + strings.Join(parts, " ") + "]"
 }
 
 func c08JSON(v any) string {
